@@ -514,7 +514,10 @@ func (e *FnExec) call(st *State, instr ssa.Instruction, c *ssa.CallCommon, res s
 	}
 	var args []*Term
 	if c.IsInvoke() {
-		args = append(args, e.term(st, c.Value))
+		rv := e.term(st, c.Value)
+		args = append(args, rv)
+		// a method call on a nil interface value panics
+		e.assert(st, "nil", Neq(ITag(rv), IntLit(0)), instr.Pos(), "method call on a nil interface value", "")
 	}
 	for _, a := range c.Args {
 		v := e.val(st, a)
